@@ -12,7 +12,8 @@ def run(ctx):
                 "{-2^31, -1, -32, -33, len-33..len+33, decrypted-32, +1, +32, +33, 2^31-1} with msg_key recomputed to match whenever the slice exists, "
                 "right key id followed by 0..40 bytes, block-aligned and unaligned garbage and sealed random plaintexts under the right key id, "
                 "damaged data through the ReadMsg dispatch and DeserializeUnencrypted. Every case runs on the real code under recover(); direct oracle: "
-                "damaged => error (never a message, never a panic); the outcome class and, when accepted, all fields are compared with the extracted "
+                "damaged => error (never a message, never a panic) - except that a bit flip may be accepted when it yields exactly the sealed message "
+                "(a flip that only garbles plaintext padding, which MTProto 1.0 does not authenticate; counted in altered_packets_accepted_with_the_sealed_message); the outcome class and, when accepted, all fields are compared with the extracted "
                 "open_client for the first ~2900 cases (thorough 40000). non-trivial = distinct packets carrying the right key id (they reach decryption, "
                 "the length guard, the parity test and the msg_key comparison)",
         "projection": "result class (message/error/panic) and, for a message, salt, session id, msg_id, seq_no, body, msg_key; error texts not compared",
